@@ -31,3 +31,12 @@ Print Assumptions C10_contexts.
 Theorem C10_context_separation : forall d, dele_prefix Google ++ d <> dele_prefix RfcDraft13 ++ d.
 Proof. exact dele_context_separation. Qed.
 Print Assumptions C10_context_separation.
+
+(* ---- tie to the source: the integer literals of the functions this property's model stands for
+   (private constants, bounds, unit factors; the files are SiteMap.files_C10) are today the ones the
+   model was written against. Gen/Sites.v num_literals is regenerated from /repo on every run; a
+   changed, added or removed number in a modelled function breaks this obligation ---- *)
+Require RV.Gen.Sites RV.Model.SiteMap.
+Theorem C10_literals_reviewed : RV.Model.SiteMap.literals_ok RV.Model.SiteMap.files_C10.
+Proof. repeat constructor. Qed.
+Print Assumptions C10_literals_reviewed.
